@@ -106,6 +106,10 @@ namespace igris
         {
             m_data = alloc.allocate(size);
             m_size = size;
+            for (size_t i = 0; i < size; ++i)
+            {
+                new (m_data + i) T();
+            }
         }
 
         void invalidate()
